@@ -518,6 +518,8 @@ static const struct inv_s invs[] = {
 	{"dzone", "from-zone", {"--from-zone", "Asia/Tokyo", "Europe/Berlin", "2012-03-04T12:00:00", NULL}, NULL},
 	{"dzone", "time-base", {"--base", "2012-06-15", "Europe/Berlin", "12:00:00", NULL}, NULL},
 	{"dzone", "time-base-winter", {"--base", "2012-01-15", "Europe/Berlin", "12:00:00", NULL}, NULL},
+	{"dzone", "time-base-next", {"--next", "--base", "2012-06-15", "Europe/Berlin", "12:00:00", NULL}, NULL},
+	{"dzone", "time-base-prev", {"--prev", "--base", "2012-01-15", "America/New_York", "12:00:00", NULL}, NULL},
 	{"dzone", "epoch-in", {"-i", "%s", "Europe/Berlin", "1330862400", NULL}, NULL},
 	{"dzone", "y2-base", {"--base", "2012-06-15", "-i", "%y%m%dT%H", "America/New_York", "450304T12", NULL}, NULL},
 	{"dzone", "locale-in", {"--from-locale", "de_DE", "-i", "%d %b %Y %H:%M", "Asia/Tokyo", "01 Dez 2012 10:00", NULL}, NULL},
